@@ -65,3 +65,38 @@ Theorem C11_corrupt_never_completes : forall (S : Type) (rd : reader S) Inv D, f
   nth_error bufs k = Some n -> 0 < n -> nth_error outs k <> Some (Ok []).
 Proof. exact (@fault_bad). Qed.
 Print Assumptions C11_corrupt_never_completes.
+
+(* ---------- writer side: a failure is never swallowed.
+   The sink's plan is consumed front to back.  If a Result-returning call (every call but Drop, which ignores errors
+   by design) returns Ok, the part of the plan it consumed contains no failure: an injected failure makes the very
+   call during which it happens return an error, whatever the state, the arguments, the compressor and the checksum.
+   Hence a program in which no call reports an error saw only short writes -- for which C09's writer-side theorems
+   and C13_old_bytes_preserved apply. *)
+From Coq Require Import List.
+From ZipV Require Import Model.Dos Model.WriterCalls Proofs.ShortWrites Proofs.FaultSurface.
+Import ListNotations.
+Theorem C11_failure_surfaces_in_its_call : forall enc crc s c s' r,
+  c <> KDrop -> do_call enc crc s c = (s', r) -> is_ok r = true ->
+  exists used, pl s = used ++ pl s' /\ nofail used.
+Proof. intros enc crc s c s' r Hc H Hok. exact (do_call_clean enc crc s c s' r Hc H Hok). Qed.
+Print Assumptions C11_failure_surfaces_in_its_call.
+
+Theorem C11_silent_program_saw_no_failure : forall enc crc calls s s' results,
+  Forall (fun c => c <> KDrop) calls -> run_calls enc crc s calls = (s', results) ->
+  forall used, pl s = used ++ pl s' -> In WFail used -> forallb is_ok results = false.
+Proof.
+  intros enc crc calls s s' results Hnd Hrun used Hsplit Hin.
+  destruct (forallb is_ok results) eqn:E; [|reflexivity]. exfalso.
+  destruct (run_calls_clean enc crc calls s s' results Hnd Hrun E) as (used' & Hs' & Hnf).
+  rewrite Hs' in Hsplit. apply app_inv_tail in Hsplit. subst used'.
+  unfold nofail in Hnf. rewrite Forall_forall in Hnf. exact (Hnf _ Hin eq_refl).
+Qed.
+Print Assumptions C11_silent_program_saw_no_failure.
+
+(* the statement is not vacuous: the second sink operation of this program fails and start_file reports it *)
+Example C11_failure_surfaces_example :
+  let o := {| o_method := CompressionMethod_Stored; o_level := None; o_time := DateTime_default; o_perm := None;
+              o_large := false; o_encrypt := None |} in
+  let '(s', rs) := run_calls (fun _ _ x => x) (fun _ => 0) (new_writer [WShort 1; WFail; WShort 2]) [KStartFile [Byte.x61] o; KFinish] in
+  map is_ok rs = [false; true] /\ pl s' = [].
+Proof. vm_compute. split; reflexivity. Qed.
